@@ -1,7 +1,11 @@
 //! probe <translator> <hex bytes> [address]: print what translate_block returns (debug aid)
 use falcon::translator::{self, Options, Translator};
 fn main() {
-    let a: Vec<String> = std::env::args().collect();
+    let mut a: Vec<String> = std::env::args().collect();
+    let func = a[1].starts_with("fn:");
+    if func {
+        a[1] = a[1][3..].to_string();
+    }
     let tr: Box<dyn Translator> = match a[1].as_str() {
         "x86" => Box::new(translator::x86::X86::new()),
         "amd64" => Box::new(translator::x86::Amd64::new()),
@@ -14,6 +18,16 @@ fn main() {
     let hex: String = a[2].chars().filter(|c| c.is_ascii_hexdigit()).collect();
     let bytes: Vec<u8> = (0..hex.len() / 2).map(|i| u8::from_str_radix(&hex[2 * i..2 * i + 2], 16).unwrap()).collect();
     let addr = a.get(3).map(|s| u64::from_str_radix(s.trim_start_matches("0x"), 16).unwrap()).unwrap_or(0x1000);
+    if func {
+        let big = matches!(a[1].as_str(), "mips" | "ppc" | "aarch64eb");
+        let mut mem = falcon::memory::backing::Memory::new(if big { falcon::architecture::Endian::Big } else { falcon::architecture::Endian::Little });
+        mem.set_memory(addr, bytes.clone(), falcon::memory::MemoryPermissions::READ | falcon::memory::MemoryPermissions::EXECUTE);
+        match tr.translate_function(&mem, addr) {
+            Ok(f) => println!("{}", f.control_flow_graph()),
+            Err(e) => println!("Err: {}", e),
+        }
+        return;
+    }
     match tr.translate_block(&bytes, addr, &Options::default()) {
         Ok(r) => {
             for (a, g) in r.instructions() {
@@ -26,3 +40,4 @@ fn main() {
         Err(e) => println!("Err: {}", e),
     }
 }
+// (see probe_fn below: `probe fn:<translator> <hex> [address]` prints translate_function's result)
